@@ -144,6 +144,9 @@ class BatchShape(object):
       return
     ret = rets[0]
     v = ret.value
+    while isinstance(v, ast.Call) and isinstance(v.func, ast.Name) and v.func.id == 'list' and len(v.args) == 1 and not v.keywords and \
+        isinstance(v.args[0], ast.Name):
+      v = v.args[0]               # list(<list built above>): a copy, same elements in the same order
     # resolve `return batch` to the expression batch was built by, when that is one expression
     if isinstance(v, ast.Name):
       defs = [s for s in walk_no_nested(tq.node, include_self=False) if isinstance(s, ast.Assign) and
